@@ -113,6 +113,32 @@ def run(chk, binary):
                 files = [(nm, rng.choice(GOOD).encode()) for nm in names]
                 vscs.append(({"files": files, "opts": ["-i"] + mode + (["--backup"] if backup else []), "cmds": ["-m", ":!rm -f %s<CR>" % names[victim], "-m", "x"], "stdin": None},
                              mode, backup, names[victim]))
+    # ---- a file argument that does not exist or is a directory, and a command that fails in some of the files only:
+    # whatever status the run ends with, if it is not 0 the files are as they were ----
+    xscs = []
+    for mode in MODES:
+        if any(x.startswith("pooled") for x in mode):
+            continue
+        for backup in (False, True):
+            files = [(nm, rng.choice(GOOD).encode()) for nm in ["a1.txt", "b2.txt", "c3.txt"]]
+            base = {"files": files, "opts": ["-i"] + mode + (["--backup"] if backup else []), "stdin": None}
+            xscs.append(dict(base, cmds=["-m", "x"], extra_args=["nosuch.txt"]))
+            xscs.append(dict(base, cmds=["-m", "x"], dirs=["sub.d"], extra_args=["sub.d"]))
+            xscs.append(dict(base, cmds=["-g", "a", "-m", ":r nosuch.inc<CR>", "--end", "-m", "x"]))
+            xscs.append(dict(base, cmds=["-m", ":nosuchcommand<CR>", "-m", "x"]))
+    for sc, ob in zip(xscs, D.scenarios_map(binary, xscs)):
+        chk.count(("c06-late-failure", tuple(ob["argv"])))
+        if ob["rc"] == 0:
+            continue
+        init = dict(sc["files"])
+        changed = [nm for nm, data in sc["files"] if ob["final"].get(nm) != data]
+        halfbak = [nm for nm in ob["final"] if nm not in init and ob["final"][nm] not in init.values()]
+        if changed or halfbak:
+            if "--serial" in sc["opts"] and not halfbak and "extra_args" in sc:
+                chk.known("serial-driver", f"--serial rewrites the files before the first faulty one: {' '.join(ob['argv'])}")
+            else:
+                chk.violation("spec:files changed although the run failed", {"argv": ob["argv"], "kind": "a file argument that cannot be read, or a command that fails in some files", "changed": changed,
+                              "half_backups": halfbak, "rc": ob["rc"], "stderr": ob["err"].decode(errors="replace")[-300:]})
     vobs = D.scenarios_map(binary, [x[0] for x in vscs])
     # correspondence for the two-pass write phase (every backup, then every file): parallel drivers with --backup
     tp = [(sc, ob, victim) for (sc, mode, backup, victim), ob in zip(vscs, vobs) if backup and "--serial" not in mode]
